@@ -204,6 +204,9 @@ def judge_basis(n, es, k, ans):
     a = parse_answer(ans)
     if a[0] != "RET": return "did not return a basis on a valid input with k = %d: %s" % (k, ans[:160])
     ret, cycles = a[1], a[2]
+    for j, cy in enumerate(cycles):
+        if any(not isinstance(i, int) or i < 0 or i >= len(es) for i in cy):
+            return "cycle #%d %s contains an edge descriptor that is not an edge of the caller's graph (leaked internal descriptor)" % (j, cy)
     why = O.judge_basis(n, es, cycles)
     if why: return why
     tot = sum(es[i][2] for c in cycles for i in c)
